@@ -277,6 +277,12 @@ func (s *parallelSolverImpl) Solve(
 	totalIterations := atomic.Int64{}
 
 	reportBestSolution := func(solutionContainer solutionContainer) {
+		// the solution belongs to the receiver once it is on the channel: what
+		// the progression needs of it is read before
+		value := 0.0
+		if solutionContainer.Solution != nil {
+			value = solutionContainer.Solution.Score()
+		}
 		resultChannel <- SolutionInfo{
 			Solution: solutionContainer.Solution,
 			Error:    solutionContainer.Error,
@@ -284,7 +290,7 @@ func (s *parallelSolverImpl) Solve(
 		if solutionContainer.Solution != nil {
 			s.progression = append(s.progression, ProgressionEntry{
 				ElapsedSeconds: time.Since(start).Seconds(),
-				Value:          solutionContainer.Solution.Score(),
+				Value:          value,
 				Iterations:     solutionContainer.Iterations,
 			})
 		}
